@@ -111,11 +111,31 @@ func (x *g) docVar() string {
 	return v
 }
 
+// nestedVars draws a table for cell (r, c) of an enclosing table: variables, sometimes a conditional, sometimes a
+// loop row over a list (present, empty or absent in the data), and in a third of the cases one more table inside.
+func (x *g) nestedVars(r, c int) DocNested {
+	n := DocNested{R: r, C: c, Table: [][]string{{x.litText(), "{{" + x.docVar() + "}}"}, {"{{" + x.docVar() + "}}", x.litText() + "{{" + x.docVar() + "}}"}}}
+	switch x.intn(0, 5, "nk") {
+	case 0:
+		cn := x.pick(condNames, "ncond")
+		x.usedConds[cn] = true
+		n.Table[1][1] = "{{#if " + cn + "}}" + x.litText() + "{{" + x.docVar() + "}}{{/if}}"
+	case 1:
+		s := []*schema{topLists[0], topLists[1], topLists[2]}[x.intn(0, 2, "nlist")]
+		x.usedLists[s.name] = true
+		n.Table = append(n.Table, []string{"{{#each " + s.name + "}}{{" + s.fields[0] + "}}", "{{" + s.fields[1] + "}}{{/each}}"})
+	}
+	if x.chance(33, "ninner") {
+		n.Inner = &DocNested{R: x.intn(0, 1, "nir"), C: x.intn(0, 1, "nic"), Table: [][]string{{"{{" + x.docVar() + "}}", x.litText()}, {x.litText(), "{{" + x.docVar() + "}}"}}}
+	}
+	return n
+}
+
 func (x *g) docSpec() *DocSpec {
 	d := &DocSpec{}
 	mapLists := []*schema{topLists[0], topLists[1], topLists[2]} // items, people, rows: lists of maps
 	for i, n := 0, x.intn(1, 5, "delems"); i < n; i++ {
-		switch k := x.intn(0, 13, "dkind"); {
+		switch k := x.intn(0, 13, "dkind"); { // tables: 5 of 14
 		case k < 4: // text with variables, possibly one placeholder split over two runs
 			v := x.docVar()
 			if x.chance(25, "splitvar") {
@@ -153,7 +173,7 @@ func (x *g) docSpec() *DocSpec {
 				DocElem{Runs: []DocRun{{T: "{{#each " + s.name + "}}"}}},
 				DocElem{Runs: []DocRun{x.fmtRun("{{" + s.fields[0] + "}}"), x.fmtRun(" (" + "{{" + s.fields[1] + "}})")}},
 				DocElem{Runs: []DocRun{{T: "{{/each}}"}}})
-		case k < 11: // table with a template row
+		case k < 11: // table with a template row (and, often, tables nested in its cells)
 			s := mapLists[x.intn(0, 2, "dlist")]
 			x.usedLists[s.name] = true
 			f := s.fields
@@ -162,13 +182,35 @@ func (x *g) docSpec() *DocSpec {
 			if len(s.bools) > 0 && x.chance(40, "drowif") {
 				row[1] = "{{#if " + s.bools[0] + "}}" + x.litText() + "{{/if}}{{" + f[1] + "}}"
 			}
-			tb := [][]string{{x.litText(), x.litText(), x.litText()}, row}
+			tb := [][]string{{x.litText(), "{{" + x.docVar() + "}}", x.litText()}, row}
 			if x.chance(50, "dfootrow") {
 				tb = append(tb, []string{"{{" + x.docVar() + "}}", "", x.litText()})
 			}
-			d.Elems = append(d.Elems, DocElem{Table: tb})
-		case k < 12: // plain table with variables
-			d.Elems = append(d.Elems, DocElem{Table: [][]string{{x.litText(), "{{" + x.docVar() + "}}"}, {"{{" + x.docVar() + "}}", x.litText()}}})
+			e := DocElem{Table: tb}
+			if x.chance(55, "dnest") {
+				// in the header row, in the template row (placeholders of the item) or in the row after it
+				r := x.intn(0, len(tb)-1, "dnestrow")
+				n := x.nestedVars(r, x.intn(0, 2, "dnestcol"))
+				if r == 1 {
+					n.Table = [][]string{{x.litText(), "{{" + f[0] + "}}"}, {"{{" + f[1] + "}}", "{{" + x.docVar() + "}}"}}
+				}
+				e.Nested = append(e.Nested, n)
+			}
+			if x.chance(30, "dcellfmt") {
+				cf := x.fmtRun("")
+				e.CellFmt = &cf
+			}
+			d.Elems = append(d.Elems, e)
+		case k < 12: // plain table with variables, tables nested in its cells (depth 1-2) with variables of their own
+			e := DocElem{Table: [][]string{{x.litText(), "{{" + x.docVar() + "}}"}, {"{{" + x.docVar() + "}}" + x.litText(), ""}}}
+			for i, n := 0, x.intn(0, 2, "dnestn"); i < n; i++ {
+				e.Nested = append(e.Nested, x.nestedVars(x.intn(0, 1, "dnr"), x.intn(0, 1, "dnc")))
+			}
+			if x.chance(30, "dcellfmt") {
+				cf := x.fmtRun("")
+				e.CellFmt = &cf
+			}
+			d.Elems = append(d.Elems, e)
 		case k < 13: // picture
 			im := x.pick(imageNames, "dimg")
 			x.usedImgs[im] = true
